@@ -35,6 +35,22 @@ class Crate:
             self._inv = None
             for k in [k for k in self.__dict__ if k.endswith("_cache")]:
                 del self.__dict__[k]
+        # phase 2b: the same for closures with unsafe operations that their parent calls directly
+        # (`let is_current = |d, v| d == unsafe { *dist_ptr.add(v) }; .. is_current(distance, v)`)
+        from .inline import unsafe_called_closures
+        ccands = unsafe_called_closures(fns)
+        cdirty = {g for g in ccands if not self._helper_clean(g)}
+        if cdirty:
+            done3 = inline_closure_calls(fns, allow_unsafe=cdirty)
+            got = {g for v in done3.values() for g in v if g in cdirty}
+            for k, v in done3.items():
+                self.inlined_closures.setdefault(k, []).extend(v)
+            self.inlined_away |= got
+            self._an = {}
+            self._fx = {}
+            self._inv = None
+            for k in [k for k in self.__dict__ if k.endswith("_cache")]:
+                del self.__dict__[k]
 
     def _helper_clean(self, path):
         from .mem import inventory, discharge_site
